@@ -701,6 +701,12 @@ def merge_case(tdir, d, k, b):
     listfile = os.path.join(d, "list_%s.txt" % tag)
     if style in ("list", "ucsc-list"):
         open(listfile, "w").write("\n".join(names) + "\n")
+    listfile2 = os.path.join(d, "list2_%s.txt" % tag)
+    third = max(1, len(names) // 3)
+    if style == "mixed":
+        # some inputs with -b, the others in TWO list files: every input counts, however it was named
+        open(listfile, "w").write("\n".join(names[third:2 * third]) + "\n")
+        open(listfile2, "w").write("\n".join(names[2 * third:]) + ("\n" if names[2 * third:] else ""))
     ucsc = style.startswith("ucsc")
     opts = []
     if outkind == "type-bigwig":
@@ -717,6 +723,8 @@ def merge_case(tdir, d, k, b):
         args = [out] + [x for n_ in names for x in ("-b", n_)] + opts + ["-t", str(b["threads"])]
     elif style == "list":
         args = [out, "-l", listfile] + opts + ["-t", str(b["threads"])]
+    elif style == "mixed":
+        args = [out] + [x for n_ in names[:third] for x in ("-b", n_)] + ["-l", listfile, "-l", listfile2] + opts + ["-t", str(b["threads"])]
     elif style == "ucsc":
         args = opts + names + [out]              # the kent call: bigWigMerge [options] in1.bw in2.bw .. out
     else:
